@@ -303,7 +303,7 @@ def run(run):
         # the command line: `decode` in every combination of -j / -a / -m over files of several messages (Cmd.tla) - the format is
         # decided by the two flags alone and every message of the file is rendered
         from .. import cmd
-        cmd.run_commands(run, wd, ['decode'], seed(), stream_opts=False)
+        cmd.run_commands(run, wd, ['decode', 'encode'], seed(), stream_opts=False)
     finally:
         rm_workdir(wd)
     run.assumptions = ['the character-level layout of the two text formats (column 81, repr quoting) is exercised by these replays but not itself modelled in TLA+; the specification fixes the tree and the flat data',
